@@ -73,14 +73,16 @@ def baseline():
         d = json.load(open(p))
         if d.get("head") == head:
             return d
-    wt = os.path.join(BASE, "_baseline")
+    wt = os.path.join(BASE, f"_baseline_{os.getpid()}")      # several seedtest processes may need the baseline at once
     worktree(wt)
     try:
         passed, failed, wall = run_tests(wt)
     finally:
         drop(wt)
     d = dict(head=head, passed=passed, failed=failed, wall_s=wall)
-    json.dump(d, open(p, "w"), indent=1)
+    if len(passed) >= 30:          # never cache a broken run
+        json.dump(d, open(p + f".{os.getpid()}", "w"), indent=1)
+        os.replace(p + f".{os.getpid()}", p)
     return d
 
 
@@ -141,7 +143,7 @@ def main():
         if not a.no_tests:
             b = baseline()
             passed, failed, wall = run_tests(wt)
-            res["tests"] = dict(passed=len(passed), failed=len(failed), wall_s=wall, baseline_passed=len(b["passed"]),
+            res["tests"] = dict(passed=len(passed), failed=len(failed), wall_s=wall, baseline_passed=len(b["passed"]), failed_tests=failed,
                                 newly_failing=sorted(set(b["passed"]) - set(passed)), newly_passing=sorted(set(passed) - set(b["passed"])))
             res["tests_unchanged"] = set(passed) == set(b["passed"])
     finally:
